@@ -9,6 +9,7 @@ HARNESS = "net_driver"
 LEAN_MODULES = ["ViaProofs.C20"]
 REQUIRED_THEOREMS = ["Via.C20_no_timer_in_source", "Via.C20_counterexample"]
 LEVEL = "proof"
+LEVEL_TEXT = ('COUNTER-EXAMPLE PROOF: under the extracted fact that the timeout reaches the socket only through SO_RCVTIMEO/SO_SNDTIMEO and no timer exists, no passage of time closes a connection in the model; confirmed on the real sockets (known finding C20-KF1). If a timer is added the obligation re-opens and the real-socket silence run becomes the oracle.')
 RULE = ("real tcp_adaptor (and ssl_tcp_adaptor in the thorough tier) on loopback with set_timeout(300 ms): the peer falls silent "
         "after connect / mid request line / mid headers / mid body / between requests and waits timeout + margin for the "
         "server to close; an active connection exchanging a request every 100 ms must stay open; the model side is the "
